@@ -5,7 +5,7 @@
     every close and sync point by the correspondence check.  Proved here: every history leaves a
     state whose structure is consistent in exactly the sense of the property text. *)
 From Aby Require Import Base Vu64 Hash KeyTypes Consts Sizing Alloc AllocInv Htx Htx_proofs Store Spec
-  Refine Refine_all Structure.
+  Refine Refine_all Structure Layout Load Load_proofs Load_htx_proofs Load_all.
 
 (** [structure_ok] spelled out (see Structure.v): table of >= 1 buckets; bitmap bit i set iff bucket i
     is non-empty; each bucket's chain is a NoDup (acyclic) list of linked key records ending in the
@@ -31,6 +31,32 @@ Proof. exact Inv_structure. Qed.
 Theorem C05_contents_determined_by_files : forall s m1 m2,
   Inv s -> represents s m1 -> represents s m2 -> m1 = m2.
 Proof. exact represents_functional. Qed.
+
+(** THE BYTES: [Layout.render] are the byte images of the three files (compared byte for byte with
+    the real files by the correspondence check); [Load.load] is an independent reader of the
+    documented layout (header fields at fixed offsets, chains followed from the bucket heads, value
+    records followed from the key records, free slots followed from the 16 free lists).  For every
+    well-formed state ([wf_state]: the invariant plus two side invariants, all three preserved by
+    every history) whose sizes fit 64 bits, the reader returns exactly that state ... *)
+Theorem C05_reader_round_trip : forall s imgs,
+  wf_state s -> fits64 s -> render s = Ok imgs ->
+  exists s', load (kt s) imgs = Ok s' /\
+     kt s' = kt s /\ hx s' = hx s /\ keyf s' = keyf s /\ valf s' = valf s.
+Proof. exact load_render_closed. Qed.
+
+(** ... and recovers exactly the map's contents *)
+Theorem C05_reader_recovers_contents : forall s m imgs,
+  wf_state s -> fits64 s -> represents s m -> render s = Ok imgs ->
+  exists s' l, load (kt s) imgs = Ok s' /\ contents s' = Ok l /\ l ≡ₚ map_to_list m.
+Proof. exact load_contents_closed. Qed.
+
+(** after any history from a created map: the images exist, and the reader maps them back *)
+Theorem C05_reader_after_any_history : forall t n ops,
+  1 <= n -> Forall (op_wf t) ops ->
+  exists s outs imgs, store_run (create t n) ops = Ok (s, outs) /\ render s = Ok imgs /\ wf_state s /\
+    (fits64 s -> exists s', load t imgs = Ok s' /\ hx s' = hx s /\ keyf s' = keyf s /\ valf s' = valf s) /\
+    (fits64 s -> exists s' l, load t imgs = Ok s' /\ contents s' = Ok l /\ l ≡ₚ map_to_list (fst (spec_run ∅ ops))).
+Proof. exact load_render_after_history. Qed.
 
 (** non-vacuity: the clauses hold for the final state of a concrete colliding history *)
 Example C05_nonvacuous :
